@@ -21,6 +21,7 @@ EXPLANATION = (
     ' (D2 as built) the un-padding slice keeps nsx + nsw samples and the transform is at least that long (argument of ns_optim_fft >= the slice bound); D4 / D5 evaluate take / arange counts under both parities instead of matching their spelling.'
     " (D5 as built) ns_optim_fft is accepted as a sorted 2^a 3^b table with a left search, or as an enumeration with one candidate per power of three (P times the smallest power of two reaching ceil(ns / P)) whose loop visits every P < 3 * ns; (D2) 'same' may use absolute bounds lo == (nsw-1)//2, hi - lo == nsx."
     ' (DS) cached frequency responses are not modified in place (also inside the memoised helper itself, on the entry of another key); the band-pass identity hp(b[0:2]) * lp(b[2:4]) is evaluated on value terms when it is not a literal product.'
+    ' (D1 window form) a transform shorter than nsx + nsw - 1 is accepted when no wrapped sample reaches the returned window (ns >= nsx + nsw - 1 - first and ns >= first + nout), decided on a box of lengths for both modes.'
 )
 ASSUMPTIONS = [
     "numpy/scipy irfft(X, n) returns n samples; without n it returns 2*(len(X)-1) (model table)",
@@ -186,9 +187,9 @@ def d1_irfft(ctx):
                         if d is None or d < 0:
                             # a transform shorter than the linear convolution is still exact on the RETURNED window [first, first + nout) when the wrapped tail
                             # (linear samples ns .. nsx + nsw - 2, folded onto 0 ..) stays below `first`:  ns >= nsx + nsw - 1 - first  and  ns >= first + nout
-                            w_ = _window_box(fi, cc)
-                            if w_ is not None:
-                                bad_, n_ = w_
+                            wbox = _window_box(fi, cc)
+                            if wbox is not None:
+                                bad_, n_ = wbox
                                 ctx.check(bad_ is None, fi, cc, f"{src(cc)[:60]}: window-exact on {n_} (nsx, nsw, mode) cases",
                                           "the transform is long enough for the returned window: no wrapped sample reaches it",
                                           (f"transform length ns_optim_fft({bad_[3]}) for nsx={bad_[0]}, nsw={bad_[1]}, mode='{bad_[2]}' can be {bad_[3]}: the linear convolution has {bad_[0] + bad_[1] - 1} samples, "
